@@ -303,7 +303,7 @@ def stale_cases(draw):
         "wq": draw(st.sampled_from(sorted(O.QTALL))),
         "aq": draw(st.sampled_from(["none", "none", "qint8", "qfloat8_e4m3fn"])),
         "seed": draw(st.integers(0, 2**20)),
-        "steps": draw(st.lists(st.sampled_from(["forward", "update-big", "update-small", "update-row", "update-data", "update-data-copy", "sgd", "forward", "forward-grad"]), min_size=2, max_size=6)),
+        "steps": draw(st.lists(st.sampled_from(["forward", "update-big", "update-small", "update-row", "update-data", "update-data-copy", "sgd", "forward", "forward-grad", "replace-param", "replace-data", "functional-call"]), min_size=2, max_size=6)),
     }
     if kind == "linear":
         c["hp"] = {"t": "linear", "i": draw(st.sampled_from([4, 16, 33, 160])), "o": draw(st.integers(1, 6)), "bias": draw(st.booleans())}
@@ -340,15 +340,22 @@ def _exec_stale(case):
     prev_codes = None
     updates = 0
     for st_ in case["steps"]:
-        if st_ in ("forward", "forward-grad"):
-            with torch.set_grad_enabled(st_ == "forward-grad"):
-                y = cut(model, x)
+        if st_ in ("forward", "forward-grad", "functional-call"):
+            w_now = qm.weight
+            if st_ == "functional-call":
+                # a stateless call with OTHER weights (torch.func.functional_call swaps the attribute for the duration of the call)
+                w_now = torch.randn(qm.weight.shape, generator=g) * 0.5
+                with torch.no_grad():
+                    y = cut(lambda: torch.func.functional_call(model, {"0.weight": w_now}, (x,)))
+            else:
+                with torch.set_grad_enabled(st_ == "forward-grad"):
+                    y = cut(model, x)
             if isinstance(y, torch.Tensor):
                 y = y.detach()
             if isinstance(y, Raised):
                 return out.fail(f"stale/forward-raises:{y.type}", y.text)
             # reference: the same functional on a weight quantized NOW from the current float weight
-            qw = quantize_weight(qm.weight.detach(), wq, 0, qm.weight_group_size)
+            qw = quantize_weight(w_now.detach(), wq, 0, qm.weight_group_size)
             xin = quantize_activation(x, aq, qm.input_scale) if aq is not None else x
             with torch.no_grad():
                 want = F.linear(xin, qw, qm.bias) if kind == "linear" else torch.nn.Conv2d._conv_forward(qm, xin, qw, qm.bias)
@@ -377,6 +384,12 @@ def _exec_stale(case):
                         qm.weight.data.add_(torch.randn(qm.weight.shape, generator=g))
                     elif st_ == "update-data-copy":
                         qm.weight.data.copy_(torch.randn(qm.weight.shape, generator=g) * 0.7)
+                    elif st_ == "replace-param":
+                        # weight surgery: ANOTHER Parameter object takes the place of the weight (pruned / averaged weights swapped in)
+                        qm.weight = torch.nn.Parameter(torch.randn(qm.weight.shape, generator=g) * 0.6)
+                        opt = torch.optim.SGD(model.parameters(), lr=0.5)
+                    elif st_ == "replace-data":
+                        qm.weight.data = torch.randn(qm.weight.shape, generator=g) * 0.8
                     else:
                         qm.weight[0].mul_(-3.0)
     out.fingerprint = [kind, case["wq"], case["aq"], case["steps"], case["hp"]]
